@@ -1260,6 +1260,11 @@ class RepositoryPackCollection:
             raise BzrCheckError(
                 "Cannot add revision(s) to repository: " + problems_summary
             )
+        # Validate every resumed pack before anything is finished: a refusal
+        # raised by a later pack's finish() would otherwise leave the earlier
+        # packs moved out of upload/ although the commit did not happen.
+        for resumed_pack in self._resumed_packs:
+            resumed_pack._check_references()
         self._remove_pack_indices(self._new_pack)
         any_new_content = False
         if self._new_pack.data_inserted():
